@@ -11,6 +11,9 @@
      "refcache" a reference plus data derived at call time    (Box.vertices, the mesh support functor's own reference and start vertex)
      "view"     slices of the caller's array                  (Sphere.c, Disk.c / normal, Ellipse.c / axes after update_pose)
      "copy"     a private copy                                (what a defensive implementation would do)
+     "writethrough"  a reference taken at construction, and update_pose COPIES the new pose INTO the held array
+                (a regression: "keep one contiguous buffer and overwrite it" - it writes into the caller's array, so every
+                other collider constructed from that array moves too, and the caller's data changes behind its back)
    Views of a 4x4 array are not C-contiguous; the compiled support functions of
    Disk and Ellipse have eager typed signatures that demand contiguous arrays
    (Strict = TRUE), Sphere wraps its view in ascontiguousarray (Strict = FALSE).
@@ -44,7 +47,7 @@ Holders(a) == {c \in Cols : col[c].alive /\ col[c].ref = a}
 
 Store(c, a, viaUpdate) ==
   [alive |-> TRUE,
-   ref    |-> IF Storage = "copy" THEN "none" ELSE a,
+   ref    |-> IF Storage = "copy" THEN "none" ELSE IF Storage = "writethrough" /\ viaUpdate THEN col[c].ref ELSE a,
    cache  |-> arr'[a],                      \* data derived from the array's content at call time
    own    |-> arr'[a],
    viewed |-> (Storage = "view" /\ viaUpdate)]
@@ -63,7 +66,7 @@ UpdatePose(c, a, p) ==
   /\ \/ arr[a] = "unalloc"                                  \* fresh array / next item of a stack
      \/ (arr[a] = p)                                        \* an existing array passed again
      \/ (Holders(a) \subseteq {c})                          \* rewritten in place, nobody else holds it
-  /\ arr' = [arr EXCEPT ![a] = p]
+  /\ arr' = IF Storage = "writethrough" THEN [arr EXCEPT ![a] = p, ![col[c].ref] = p] ELSE [arr EXCEPT ![a] = p]
   /\ col' = [col EXCEPT ![c] = Store(c, a, TRUE)]
   /\ last' = [last EXCEPT ![c] = p]
   /\ hist' = Append(hist, [op |-> "update", c |-> c, a |-> a, p |-> p])
